@@ -125,6 +125,8 @@ where
             ordered_edge_v,
             edge.weight,
             edge_already_exists,
+            self.specs.multi_edges,
+            self.specs.edge_dedupe_strategy == EdgeDedupeStrategy::KeepLast,
         );
 
         // add to predecessors
@@ -144,6 +146,8 @@ where
                     ordered_edge_u,
                     edge.weight,
                     edge_already_exists,
+                    self.specs.multi_edges,
+                    self.specs.edge_dedupe_strategy == EdgeDedupeStrategy::KeepLast,
                 );
             }
             false => {
@@ -155,13 +159,18 @@ where
                     .entry(v_node_index)
                     .or_default()
                     .insert(u_node_index);
-                add_to_adjacency_vec(
-                    &mut self.successors_vec,
-                    ordered_edge_v,
-                    ordered_edge_u,
-                    edge.weight,
-                    edge_already_exists,
-                );
+                // a self-loop has no mirrored entry
+                if u_node_index != v_node_index {
+                    add_to_adjacency_vec(
+                        &mut self.successors_vec,
+                        ordered_edge_v,
+                        ordered_edge_u,
+                        edge.weight,
+                        edge_already_exists,
+                        self.specs.multi_edges,
+                        self.specs.edge_dedupe_strategy == EdgeDedupeStrategy::KeepLast,
+                    );
+                }
             }
         }
 
@@ -466,6 +475,8 @@ fn add_to_adjacency_vec(
     v_node_index: usize,
     weight: f64,
     edge_already_exists: bool,
+    multi_edges: bool,
+    keep_last: bool,
 ) {
     match edge_already_exists {
         true => {
@@ -473,7 +484,13 @@ fn add_to_adjacency_vec(
                 .iter()
                 .position(|succ| succ.node_index == v_node_index)
                 .unwrap();
-            if weight < adjacency_vec[u_node_index][index].weight {
+            // the entry holds the smallest weight of the stored parallel edges; on a single-edge
+            // graph it follows the stored edge: replaced under KeepLast, untouched under KeepFirst
+            let replace = match multi_edges {
+                true => weight < adjacency_vec[u_node_index][index].weight,
+                false => keep_last,
+            };
+            if replace {
                 adjacency_vec[u_node_index][index] = AdjacentNode::new(v_node_index, weight);
             }
         }
